@@ -413,20 +413,22 @@ theorem reachable_wellformed (cx : Ctx) (kind : String) (strand : Int) (rows : L
 
 /-- what `WorldWF` gives for one object: exactly the hypotheses of the theorems of this file and
     of C05 — for a column-stored alignment `ColsWF` for some number of rows `n` (which is
-    `Rows()` whenever there is a column), capacities, `ColsValid`, offset 0; for a multi
+    `Rows()` whenever there is a column, and then also the number of row annotations, so that
+    `Row(i)` for `i < Rows()` always finds its annotation), capacities, `ColsValid`, offset 0; for a multi
     `RowsCapWF` and `RowsWF`; for a linear sequence `Lin.Valid` -/
 theorem wellformed_gives_hypotheses (w : World) (hw : WorldWF w) (k : Nat) :
     (∀ a, w.objs[k]? = some (.aln a) →
       a.off = 0 ∧ a.ColsValid w.cells ∧ (∀ c ∈ a.cols, c.len ≤ c.cap) ∧
-      ∃ n, ColsWF w.cells n a.cols ∧ (a.cols ≠ [] → a.rows = n)) ∧
+      ∃ n, ColsWF w.cells n a.cols ∧ (a.cols ≠ [] → a.rows = n ∧ a.subs.length = n)) ∧
     (∀ m, w.objs[k]? = some (.multi m) → RowsCapWF w.cells m.rows ∧ RowsWF w.cells m.rows) ∧
     (∀ m, w.objs[k]? = some (.set m) → RowsCapWF w.cells m.rows ∧ RowsWF w.cells m.rows) ∧
     (∀ l, w.objs[k]? = some (.lin l) → l.Valid w.cells) := by
   refine ⟨?_, ?_, ?_, ?_⟩
   · intro a hk
-    obtain ⟨h0, n, hc⟩ := hw.obj k _ hk
+    obtain ⟨h0, n, hc, hsub⟩ := hw.obj k _ hk
     refine ⟨h0, fun c hm => (hc.1.1 c hm).1, hc.cap, n, hc.toColsWF, ?_⟩
     intro hne
+    refine ⟨?_, hsub hne⟩
     cases hcols : a.cols with
     | nil => exact (hne hcols).elim
     | cons c cs =>
